@@ -109,8 +109,8 @@ pub fn run_c18(tier: &str) -> Report {
         other => rep.sink.push(viol("C18/base-cell-ids", format!("get_res0_cells() = {:?}", other), json!({"kind": "res0"}))),
     }
     // --- nearest-face selection on the sphere lattice
-    let n = if tier == "quick" { 16384 } else { 1 << 20 };
-    let pts = en::sphere_lonlat(n, tier != "quick");
+    let n = if tier == "replay-relabel" { 128 } else if tier == "quick" { 16384 } else { 1 << 20 };
+    let pts = en::sphere_lonlat(n, tier == "thorough");
     let vs: Vec<Viol> = pts.par_iter().flat_map(|&(lon, lat, _)| check_nearest(&f, lon, lat)).collect();
     rep.sink.extend(vs);
     evals += 3 * pts.len() as u64;
@@ -163,9 +163,59 @@ pub fn run_c18(tier: &str) -> Report {
             rep.sink.push(viol("C18/relabel-bijection", format!("face {}: segment -> quintant is not a permutation of 0..4: {:?}", o.id, qs), json!({"kind": "face", "face": o.id})));
         }
     }
+    // --- the relabelling is a function of the face, not of the Origin value's identity: owned copies
+    // (clones, dropped and re-created so that the allocator reuses their storage) of every ordered pair
+    // of faces, one after the other, must relabel exactly like the static table entries
+    let table = |o: &a5::core::utils::Origin| -> Result<Vec<(usize, String)>, String> {
+        subj::guard_val(|| {
+            let mut v = Vec::new();
+            for q in 0..5usize {
+                let (s, o1) = a5::core::origin::quintant_to_segment(q, o);
+                v.push((s, format!("{:?}", o1)));
+            }
+            for sg in 0..5usize {
+                let (q, o2) = a5::core::origin::segment_to_quintant(sg, o);
+                v.push((q, format!("{:?}", o2)));
+            }
+            v
+        })
+    };
+    let statics: Vec<Result<Vec<(usize, String)>, String>> = origins.iter().map(|o| table(o)).collect();
+    let mut clone_pairs = 0u64;
+    for i in 0..origins.len() {
+        for j in 0..origins.len() {
+            clone_pairs += 1;
+            let first = {
+                let a = origins[i].clone();
+                table(&a)
+            };
+            let second = {
+                let b = origins[j].clone();
+                table(&b)
+            };
+            // and a value that outlives the next call
+            let keep = origins[i].clone();
+            let third = {
+                let c = origins[j].clone();
+                table(&c)
+            };
+            drop(keep);
+            for (which, got, face) in [("first", &first, i), ("second", &second, j), ("third", &third, j)] {
+                if *got != statics[face] {
+                    rep.sink.push(viol(
+                        "C18/relabel-depends-on-history",
+                        format!("an owned copy of face {} relabels as {:?} ({} of the pair (face {}, face {})), the static table entry as {:?}", face, got, which, i, j, statics[face]),
+                        json!({"kind": "clone-pair", "first": i, "second": j}),
+                    ));
+                }
+            }
+        }
+    }
+    evals += clone_pairs * 30;
+    rep.set("owned_copy_face_pairs", json!(clone_pairs));
     rep.set("evaluations", json!(evals));
     rep.set("distinct_nontrivial", json!(hard + 66 + 120));
-    rep.set("rule", json!("12 base cells vs an independent regular dodecahedron (face 0 on the north pole, ring at colatitude atan 2, 93 deg offset, documented numbering); all 66 face pairs; nearest-face choice (lookup at r=0, r=1 and the internal selector) vs true angular argmin (ties within 1e-9 rad accepted) on the sphere lattice; all 12x5 quintant<->segment relabellings both ways; distinct_nontrivial = lattice points on frame vertices/edges/seams/caps + pairs + relabellings"));
+    rep.set("rule", json!("12 base cells vs an independent regular dodecahedron (face 0 on the north pole, ring at colatitude atan 2, 93 deg offset, documented numbering); all 66 face pairs; nearest-face choice (lookup at r=0, r=1 and the internal selector) vs true angular argmin (ties within 1e-9 rad accepted) on the sphere lattice; all 12x5 quintant<->segment relabellings both ways, and again through owned copies of every ordered pair of faces; distinct_nontrivial = lattice points on frame vertices/edges/seams/caps + pairs + relabellings"));
     rep.set("exhaustive", json!(true));
     rep.set("exhaustive_scope", json!("all 66 pairs, all 60 relabellings, every lattice point (continuum not covered between lattice points)"));
     rep.sample(json!({"lonlat": [pts[100].0, pts[100].1], "tag": pts[100].2}));
@@ -316,6 +366,53 @@ pub fn run_c19(tier: &str) -> Report {
         .collect();
     rep.sink.extend(vs);
     evals += ll.len() as u64;
+    // latitude ladders: from_lon_lat at one rung followed, on the same thread, by to_lon_lat of the
+    // sphere point of every other rung (all ordered pairs): a remembered correction must not be reused
+    let mut ladder_pairs = 0u64;
+    {
+        let deltas: Vec<f64> = {
+            let mut d = vec![0.0];
+            for e in [1e-12, 1e-11, 1e-10, 3e-10, 1e-9, 3e-9, 9e-9, 1.1e-8, 1e-7, 1e-6, 1e-4] {
+                d.push(e);
+                d.push(-e);
+            }
+            d
+        };
+        let bases: &[f64] = if tier == "quick" { &[10.0, -33.0, 62.0, 88.0] } else { &[0.5, 10.0, -33.0, 44.99, 62.0, -75.0, 88.0, 89.9] };
+        let vs: Vec<Viol> = bases
+            .par_iter()
+            .flat_map(|&b| {
+                let mut out = Vec::new();
+                let lon = 17.25;
+                let lats: Vec<f64> = deltas.iter().map(|d| b + d / rg::DEG).collect();
+                // sphere points of the rungs by the reference conversion (independent of the subject's state)
+                let pts: Vec<V3> = lats.iter().map(|&la| rg::ll_to_vec(lon, la)).collect();
+                for (j, &lj) in lats.iter().enumerate() {
+                    for (k, &lk) in lats.iter().enumerate() {
+                        let r = subj::from_lonlat(lon, lj).and_then(|_| subj::to_lonlat(pts[k]));
+                        match r {
+                            Ok((lon2, lat2)) => {
+                                let e = rg::ang(rg::ll_to_vec(lon2, lat2), rg::ll_to_vec(lon, lk));
+                                if !(e <= 1e-11) {
+                                    out.push(viol(
+                                        "C19/lonlat-after-neighbour",
+                                        format!("to_lon_lat of the sphere point of latitude {} gives ({}, {}), {:.3e} rad away, right after from_lon_lat at latitude {}", lk, lon2, lat2, e, lj),
+                                        json!({"kind": "ladder", "lon": lon, "first_lat": lj, "second_lat": lk, "j": j, "k": k}),
+                                    ));
+                                }
+                            }
+                            Err(e) => out.push(viol("C19/panic", e, json!({"kind": "ladder", "lon": lon, "first_lat": lj, "second_lat": lk}))),
+                        }
+                    }
+                }
+                out
+            })
+            .collect();
+        rep.sink.extend(vs);
+        ladder_pairs += (bases.len() * deltas.len() * deltas.len()) as u64;
+    }
+    evals += ladder_pairs;
+    rep.set("latitude_ladder_ordered_pairs", json!(ladder_pairs));
     let w = worst.lock().unwrap();
     rep.set("evaluations", json!(evals));
     rep.set("distinct_nontrivial", json!(n + 1));
@@ -336,5 +433,58 @@ pub fn replay_c18(case: &Value) -> Vec<Viol> {
     if case["kind"] == "lonlat" {
         return check_nearest(&rg::frame(), case["lon"].as_f64().unwrap(), case["lat"].as_f64().unwrap());
     }
-    vec![]
+    // relabelling cases: the whole (small) family is re-run and filtered by class
+    let rep = run_c18("replay-relabel");
+    let (v, _) = rep.sink.drain();
+    v.into_iter().filter(|x| x.class.starts_with("C18/relabel")).collect()
+}
+
+pub fn replay_c19(case: &Value) -> Vec<Viol> {
+    let mut out = Vec::new();
+    match case["kind"].as_str() {
+        Some("ladder") => {
+            let (lon, lj, lk) = (case["lon"].as_f64().unwrap(), case["first_lat"].as_f64().unwrap(), case["second_lat"].as_f64().unwrap());
+            let r = subj::from_lonlat(lon, lj).and_then(|_| subj::to_lonlat(rg::ll_to_vec(lon, lk)));
+            match r {
+                Ok((lon2, lat2)) => {
+                    let e = rg::ang(rg::ll_to_vec(lon2, lat2), rg::ll_to_vec(lon, lk));
+                    if !(e <= 1e-11) {
+                        out.push(viol("C19/lonlat-after-neighbour", format!("to_lon_lat is {:.3e} rad off right after from_lon_lat at latitude {}", e, lj), case.clone()));
+                    }
+                }
+                Err(e) => out.push(viol("C19/panic", e, case.clone())),
+            }
+        }
+        Some("lat") => {
+            let phi = case["phi"].as_f64().unwrap();
+            let e = (inv(fwd(phi)) - phi).abs();
+            if !(e <= 1e-12) {
+                out.push(viol("C19/roundtrip", format!("inverse(forward({})) differs by {:.3e}", phi, e), case.clone()));
+            }
+            if phi.abs() <= 89.0 * rg::DEG && !((fwd(phi) - rg::authalic_lat_closed_form(phi)).abs() <= 1e-11) {
+                out.push(viol("C19/closed-form", format!("forward({}) = {}", phi, fwd(phi)), case.clone()));
+            }
+            if !((fwd(phi) + fwd(-phi)).abs() <= 1e-15) {
+                out.push(viol("C19/odd", format!("forward is not odd at {}", phi), case.clone()));
+            }
+        }
+        Some("lonlat") => {
+            let (lon, lat) = (case["lon"].as_f64().unwrap(), case["lat"].as_f64().unwrap());
+            match subj::from_lonlat(lon, lat).and_then(|v| subj::to_lonlat(v).map(|b| (v, b))) {
+                Ok((v, (lon2, lat2))) => {
+                    let e = rg::ang(rg::ll_to_vec(lon, lat), rg::ll_to_vec(lon2, lat2));
+                    let e2 = rg::ang(v, rg::ll_to_vec(lon, lat));
+                    if !(e <= 1e-12) {
+                        out.push(viol("C19/lonlat-roundtrip", format!("{:.3e} rad away", e), case.clone()));
+                    }
+                    if !(e2 <= 1e-11) {
+                        out.push(viol("C19/lonlat-sphere", format!("{:.3e} rad from the reference", e2), case.clone()));
+                    }
+                }
+                Err(e) => out.push(viol("C19/panic", e, case.clone())),
+            }
+        }
+        _ => {}
+    }
+    out
 }
